@@ -49,7 +49,7 @@ type scnPool struct {
 	names      [scnNPos]string
 	prefixFree bool // no name is a proper prefix of another one (usable on the mem engine)
 	pats       []scnPat
-	nulPats    []scnPat // patterns that contain a 0x00 byte (known finding match-nul-pattern)
+	nulPats    []scnPat // patterns that contain a 0x00 byte: refused with an error since the fix of C13-match-nul-pattern
 }
 
 // a MATCH pattern and the pool positions (1-based) it matches, by construction.  Only
@@ -109,6 +109,8 @@ var scnTables = [][3]string{
 	{strings.Repeat("T", 255), strings.Repeat("T", 254), strings.Repeat("T", 254) + "U"},
 	{"meta", "met", "meta;"},
 	{"b", "ab", "c"},
+	// 8: "\xff" and the UTF-8 encoding of U+FFFD, what a JSON transport turns "\xff" into
+	{"\xff", "\xef\xbf\xbd", "\xfe"},
 }
 
 // table triples usable on the mem engine (prefix-related tables do not make engine keys
@@ -202,7 +204,7 @@ func (wd *scnWorld) applyReq(dataType int8, data []byte, ts int64) (res interfac
 	select {
 	case <-wr.WaitC():
 		return wr.GetResult()
-	case <-time.After(5 * time.Second):
+	case <-time.After(120 * time.Second):
 		return fmt.Errorf("NO-TRIGGER")
 	}
 }
@@ -499,13 +501,14 @@ func (d *scnDrv) page(sp scnSpace, cursor string, cnt int, rev bool, pat string)
 			for _, k := range sr.Keys {
 				els = append(els, d.posOf(sp, k, true))
 			}
+			// The node-level handlers are only reachable through the server-side merge
+			// (server/scan_merge.go): decodeScanCursor hands each partition the cursor
+			// table + ":" + <what the partition returned>, for SCAN and ADVSCAN alike.  The
+			// driver composes the next request exactly like that, so the element the
+			// returned cursor designates is the returned bytes read as a key of the table.
 			nextRaw = sr.NextCursor
 			if len(nextRaw) > 0 {
-				// SCAN returns "table:key", ADVSCAN the key without its table
-				nxt = d.posOf(sp, nextRaw, !sp.adv)
-				if !sp.adv {
-					nextRaw = nextRaw[strings.IndexByte(string(nextRaw), ':')+1:]
-				}
+				nxt = d.posOf(sp, nextRaw, false)
 			}
 			return
 		}
@@ -690,6 +693,9 @@ func (d *scnDrv) scanSpace(sp scnSpace, thin int) {
 	}
 	if d.nulPat {
 		for i := range pool.nulPats {
+			if thin > 1 && d.rng.Intn(thin) != 0 {
+				continue
+			}
 			d.iterate(sp, 0, 1+d.rng.Intn(n+1), false, &pool.nulPats[i], false)
 			d.iterate(sp, scnNPos+1, 1+d.rng.Intn(n+1), true, &pool.nulPats[i], false)
 		}
@@ -709,8 +715,10 @@ func scansim(args []string) error {
 	policy := fs.String("policy", "local", "expiry policy: local | compact")
 	poolsel := fs.Int("pool", -1, "force the key/element pool (-1: by seed)")
 	revEmpty := fs.Bool("revempty", true, "include reverse iterations from the empty cursor")
-	nulPat := fs.Bool("nulpat", false, "include MATCH patterns that contain a 0x00 byte (known finding)")
+	nulPat := fs.Bool("nulpat", true, "include MATCH patterns that contain a 0x00 byte (the model accepts an error reply or the exact subset)")
 	longLen := fs.Int("long", 9900, "length of the shared prefix of the long names")
+	plainScan := fs.Bool("plainscan", false, "include plain SCAN / REVSCAN key spaces (known finding C13-scan-cursor-table-twice)")
+	collOnly := fs.Bool("collonly", false, "scan only collections (HSCAN/SSCAN/ZSCAN), no key spaces")
 	fs.Parse(args)
 	scnPools = scnBuildPools(*longLen)
 
@@ -760,6 +768,20 @@ func scansim(args []string) error {
 		d.tabs = scnTables[ti]
 		// the scanned table is not always the first of the triple
 		r := rng.Intn(3)
+		// ... and most of the time it is one whose name is a proper prefix of a neighbour's
+		// name (order / orders / order2: the table boundary check must not go by prefix)
+		var pre []int
+		for i := range d.tabs {
+			for j := range d.tabs {
+				if i != j && len(d.tabs[i]) < len(d.tabs[j]) && strings.HasPrefix(d.tabs[j], d.tabs[i]) {
+					pre = append(pre, i)
+					break
+				}
+			}
+		}
+		if len(pre) > 0 && rng.Intn(10) < 7 {
+			r = pre[rng.Intn(len(pre))]
+		}
 		d.tabs[0], d.tabs[r] = d.tabs[r], d.tabs[0]
 		d.keys, d.subs = &scnPools[ki], &scnPools[si]
 		d.kpos, d.spos = map[string]int{}, map[string]int{}
@@ -774,9 +796,13 @@ func scansim(args []string) error {
 		// spaces: key spaces of table 0 (plain SCAN for kv, ADVSCAN for all types) and
 		// collections of table 0
 		var spaces []scnSpace
-		spaces = append(spaces, scnSpace{ty: 0, t: 0, adv: false})
-		for ty := range scnTypes {
-			spaces = append(spaces, scnSpace{ty: ty, t: 0, adv: true})
+		if *plainScan {
+			spaces = append(spaces, scnSpace{ty: 0, t: 0, adv: false})
+		}
+		if !*collOnly {
+			for ty := range scnTypes {
+				spaces = append(spaces, scnSpace{ty: ty, t: 0, adv: true})
+			}
 		}
 		for _, ty := range []int{1, 3, 4} {
 			for k := 1; k <= scnNPos; k++ {
